@@ -155,12 +155,17 @@ func init() {
 		ID: "C07",
 		Decides: []string{
 			"(E-loops, E-nonempty) termination: each of the 20 loops in scanner, parser and directives is bounded (range / counted) or consumes at least one rune on every cyclic path and is left at end of input; decided by a path-sensitive progress analysis with function summaries (Adv / AdvOrEOF / None) computed as a least fixed point; the parser and scanner are not recursive; the literals handed to ReadString/ReadAlternative are non-empty;",
+			"(C-panic-parser) no panic, Must*, log.Fatal or os.Exit is reachable from ParseFile, Advance, Error.Error, Range.Location/Context/Extract;",
+			"(C-offset) the scanner position is written only by Advance (offset += currentLen) and Backtrack (to the start of the caller's own scope), each followed on every path by a re-decode of the current rune from text[offset:];",
+			"(C-range) range bounds are written only by Scope.Range, Advance (error positions), Range.Extend and the synthetic account of infer ([0, len(text)));",
+			"(C-index) every slice and index of the input text has bounds of the reviewed forms (scanner position, a range's own Start/End, line boundaries from bounded scans) or is dominated by a comparison with the text's length;",
+			"(K-text-identity) the text handed to parser.New reaches Scanner.text unchanged, so ranges index the caller's input.",
 		},
 		NotDecided: []string{
-			"that the tree is the right tree for the text;",
-			"slice-bounds safety of Go code in general (only the scanner/directives sites named in DESIGN.md are examined).",
+			"that the tree is the right tree for the text, that children lie within parents and directives are disjoint and increasing (follows from scopes being opened and closed in a nested fashion; K-range-last of the design was not built);",
+			"implicit panics other than the text accesses above (nil maps, type assertions) in the parser.",
 		},
-		Rules: []Rule{RuleELoops},
+		Rules: []Rule{RuleELoops, RuleCPanicParser, RuleCOffset, RuleCRange, RuleCIndex, RuleKTextIdentity},
 	})
 }
 
@@ -254,6 +259,7 @@ func init() {
 			"(F-keywords, F-fields) the journal printer writes, for every model directive type, keywords the parser reads back as that type, and reads every content field (Src and Posting.Value are listed as non-content);",
 			"(F-multiline) a directive whose printed form spans lines ends with a line break, so that an empty line separates it from the next directive (the parser's continuation loops stop at an empty line);",
 			"(C-round) amounts reach the printed text through decimal.String only: no rounding, scaling or float conversion in the journal printer;",
+			"(F-model-only, H-quotes) the printer reads model content only (no Src, no Value), and the description is printed verbatim except for the double quote;",
 			"(A-sort, A-order) the normal-form order is total for what is printed (transaction.Compare reads every printed field; days sorted by date);",
 			"(F-directive-types) ParseDirective, Builder.Add and the journal printer agree on the directive types;",
 			"(D-check-first) print runs the checker before printing.",
@@ -261,7 +267,7 @@ func init() {
 		NotDecided: []string{
 			"the round trip itself (no execution): that the printed text re-parses to the same model, e.g. escaping inside descriptions (see C13 for quotes), posting sign normalisation, date format strings.",
 		},
-		Rules: []Rule{RuleFKeywords, RuleFFields, RuleFMultiline, RuleCRound, RuleAOrder, RuleFDirectiveTypes, RuleDCheckFirst},
+		Rules: []Rule{RuleFKeywords, RuleFFields, RuleFMultiline, RuleFModelOnly, RuleKPrintPairs, RuleHQuotes, RuleCRound, RuleAOrder, RuleFDirectiveTypes, RuleDCheckFirst},
 	})
 	claim(&Property{
 		ID: "C17",
@@ -274,5 +280,45 @@ func init() {
 			"percent cells (portfolio weights; outside this property).",
 		},
 		Rules: []Rule{RuleFCells, RuleCRound},
+	})
+}
+
+func init() {
+	claim(&Property{
+		ID: "C13",
+		Decides: []string{
+			"(C-stdout) in cmd/importer/** nothing but journal.Print on cmd.OutOrStdout() writes to standard output (no fmt.Print*, no os.Stdout, no other consumer of the writer): 11 approved sites;",
+			"(H-quotes) the text printed between double quotes is the Description with every double quote replaced by a constant without quote or line break, otherwise verbatim;",
+			"(K-registry-origin) every account and commodity an importer stores into a model builder or directive comes from a registry accessor or a flag resolved through the registry (96 stores);",
+			"(C-postings) the postings of every emitted transaction come from the pair builder;",
+			"(F-keywords, F-multiline, F-model-only, K-print-pairs) the shared printer writes keywords the parser reads back, terminates multi-line directives with an empty line, prints model content only, and prints exactly one booking line per posting pair whatever the amounts;",
+			"(A-order) no map iteration order reaches the output of an importer.",
+		},
+		NotDecided: []string{
+			"row fidelity: one transaction per row, on the row's date, with the row's signed amount in the row's currency (which column is read, sign conventions, thousands separators): values of runtime strings, no structural reading;",
+			"zero-amount rows and other value-dependent printing paths.",
+		},
+		Rules: []Rule{RuleCStdout, RuleHQuotes, RuleKRegistryOrigin, RuleCPostings, RuleFKeywords, RuleFMultiline, RuleFModelOnly, RuleKPrintPairs, RuleAOrder},
+	})
+}
+
+func init() {
+	claim(&Property{
+		ID: "C14",
+		Decides: []string{
+			"(C-panic) every explicit panic / Must* / RequireFromString / MustCompile reachable from check, balance, print, format, infer, transcode, portfolio is in a reviewed table whose structural conditions are re-checked (constant valid arguments at all callers; callers of date.NewPartition exclude a zero start);",
+			"(D-div) every decimal or integer division has a non-zero constant divisor or a dominating zero test;",
+			"(D-nilflag) the nil of an absent optional flag never reaches an unguarded dereference;",
+			"(D-flagint, D-makecap) integers from the command line that reach a slice bound are rejected when negative where they are parsed; every non-constant make length/capacity is provably non-negative;",
+			"(D-recursion, K-nested-limit) the include recursion is bounded by an ancestor chain and a membership test; the goroutine group with nested submission has no concurrency limit;",
+			"(K-errors) no call reachable from these commands drops the error of a module function (355 used, 6 reviewed drops);",
+			"(D-out-after) standard output is first used after the journal was loaded and processed successfully, and no processor callback of balance/print/transcode/check/infer writes to it;",
+			"(E-loops) the parser terminates on every input (shared with C07).",
+		},
+		NotDecided: []string{
+			"implicit panics in general (index and slice bounds that do not come from a flag or from the input text, nil maps, type assertions);",
+			"memory bounds other than the include cycle; hangs other than the channel protocol of C19.",
+		},
+		Rules: []Rule{RuleCPanic, RuleDDiv, RuleDNilFlag, RuleDFlagInt, RuleDMakeCap, RuleDRecursion, RuleKNestedLimit, RuleKErrors, RuleDOutAfter, RuleELoops},
 	})
 }
